@@ -203,14 +203,47 @@ execute = Contract(
            "for c in self.currently_executing#1": LoopSpec(invariant=LOOP_INV, assumed=True),
            "for overlap_list in self.uod.overlapping_command_names_lists": LoopSpec(invariant=LOOP_INV, assumed=True)})
 
-CONTRACTS = [finalize, cancel, execute]
+
+
+# ---- cancel_commands (what Stop / Restart call): every executing request except the requesting command itself is cancelled ----------------
+def cancel_into_ghost(ctx, args, kwargs):
+    """self._cancel_command(request, finalize): recorded in the ghost set `ghost_cancelled` (its effect is the contract proved above)"""
+    from pyvc import heapops as H_
+    me = ctx.local("self")
+    gs = ctx.st.read("ghost_cancelled", ctx.rid(me))
+    from pyvc.smt import RID as _RID
+    H_.dict_set(ctx.st, _RID(gs), args[0].term, args[0].term)
+    fin = args[1] if len(args) > 1 else kwargs.get("finalize")
+    if fin is not None:
+        ctx.check("the-finalize-flag-is-passed-on", fin.term == ctx.local("finalize").term, "call-site")
+    return ctx.none()
+
+
+cancel_into_ghost.modifies = DICTF
+GC = "self.ghost_cancelled"
+cancel_all = Contract(
+    target=CM + "cancel_commands", types=dict(TYPES, source_command_name="str", finalize="bool", reqs="list[CommandRequest]",
+                                              **{"CommandManager.ghost_cancelled": "set[CommandRequest]"}),
+    calls=dict(CALLS, **{"self._cancel_command": cancel_into_ghost, "self.registry.get_running_command_names": lambda ctx, a, k: ctx.fresh("running_names", "list[str]")}),
+    options=dict(OPTS, lenient=True), raises=None,
+    requires=[f"len({GC}) == 0", "all(r is not None for r in self.cmd_executing)"],
+    ensures=[("every-executing-request-except-the-requesting-command-is-cancelled",
+              f"all(implies(r.name != source_command_name, r in {GC}) for r in old(self.cmd_executing))"),
+             ("the-requesting-command-itself-is-not-cancelled", f"all(r.name != source_command_name for r in {GC})")],
+    loops={"for cmd_request in reqs": LoopSpec(
+        invariant=[f"all(implies(reqs[j].name != source_command_name, reqs[j] in {GC}) for j in range(idx))",
+                   f"all(r.name != source_command_name for r in {GC})"],
+        frame={f: [GC] for f in DICTF}),
+        "for name in self.registry.get_running_command_names()": LoopSpec(invariant=[], frame={"$len": ["cmds_still_running"], "$items": ["cmds_still_running"]}),
+        "for name, _ in self.uod.command_instances.items()": LoopSpec(invariant=[], frame={"$len": ["cmds_still_running"], "$items": ["cmds_still_running"]})})
+CONTRACTS = [finalize, cancel, execute, cancel_all]
 TARGETS = [c.key for c in CONTRACTS]
 BOUNDED = []
 TRUSTED = ["ASSUMED (not proved): the two scans at the top of _execute_uod_command that cancel identical / overlapping commands keep uod.command_instances keyed by name and do not retire the current request",
            "UodCommandBuilder.build yields a command named like its factory key and bound to the uod", "tracking bookkeeping, command.cancel() and the user finalizer do not raise; "
            "uod initialize/execute callbacks may raise anything", "uod.command_instances maps each name to the instance carrying that name (representation invariant, assumed at entry)",
            "Stop / Restart reach cancel_commands(finalize=True) (internal_commands_impl generators, not under this contract)"]
-CLAUSES = {"no UOD command is still executing or holding an instance when Stop or Restart completes": "(a)-(c): an instance is released whenever its request is retired, and cancel+finalize releases it; cancel_commands' loop and the Stop/Restart generators are NOT under contract",
+CLAUSES = {"no UOD command is still executing or holding an instance when Stop or Restart completes": "(a)-(c): an instance is released whenever its request is retired, and cancel+finalize releases it; cancel_commands is under contract (every executing request except the requesting command is cancelled with the given finalize flag: loop invariant, all lengths); the Stop/Restart generators only through the gating variants",
            "every started UOD command is shown completed/failed/cancelled; simulations and run id cleared; Restart re-runs under a new run id": "NOT covered"}
 EXPLANATION = "Partial claim: instance-release postconditions on the command manager's execute / finalize / cancel paths."
 
